@@ -14,6 +14,7 @@ GUARD = "verif"
 
 GOCACHE_DIR = os.environ.get("VERIF_GOCACHE") or os.path.join(CACHE, "gocache")
 GOCACHE_LIMIT_KB = 6 * 1024 * 1024
+_gocache_lock = None
 
 def trim_gocache():
     """every check compiles freshly rendered scratch packages, which the Go build cache keeps for days: the checks use
@@ -23,10 +24,21 @@ def trim_gocache():
         kb = int(out.split()[0]) if out.split() else 0
     except Exception:
         kb = 0
+    os.makedirs(os.path.dirname(GOCACHE_DIR) or ".", exist_ok=True)
+    global _gocache_lock
+    lockf = open(GOCACHE_DIR + ".lock", "w")
     if kb > GOCACHE_LIMIT_KB:
-        with Lock("gocache"):
+        # only when no other check (e.g. a sweep slot sharing this cache) is using it
+        try:
+            fcntl.flock(lockf, fcntl.LOCK_EX | fcntl.LOCK_NB)
             shutil.rmtree(GOCACHE_DIR, ignore_errors=True)
+            fcntl.flock(lockf, fcntl.LOCK_UN)
+        except OSError:
+            pass
     os.makedirs(GOCACHE_DIR, exist_ok=True)
+    # held (shared) for the lifetime of this process
+    fcntl.flock(lockf, fcntl.LOCK_SH)
+    _gocache_lock = lockf
 
 def env(extra=None):
     e = dict(os.environ)
